@@ -233,13 +233,14 @@ func diffJSON(path string, a, b any, out *[]string) {
 		for _, k := range ks {
 			x, okA := av[k]
 			y, okB := bv[k]
+			ek := strings.ReplaceAll(k, "/", "~1") // JSON-pointer escaping: keys such as sidecar.istio.io/status stay one element
 			switch {
 			case !okA:
-				*out = append(*out, path+"/"+k+" (added)")
+				*out = append(*out, path+"/"+ek+" (added)")
 			case !okB:
-				*out = append(*out, path+"/"+k+" (removed)")
+				*out = append(*out, path+"/"+ek+" (removed)")
 			default:
-				diffJSON(path+"/"+k, x, y, out)
+				diffJSON(path+"/"+ek, x, y, out)
 			}
 		}
 		return
